@@ -86,7 +86,8 @@ Record wcell := mkW {
   w_ref : Z;
   w_closed : bool; w_isroot : bool; w_visible : bool; w_steal : bool; w_focused : bool;
   w_hs : list handler;
-  w_fcn : bool }.      (* focus_child_notify *)
+  w_fcn : bool;        (* focus_child_notify *)
+  w_dying : bool }.    (* is_destroying (fixes/C08-22): tickit_window_destroy has begun *)
 
 Record qcell := mkQ { q_change : change; q_parent : ptr; q_win : ptr; q_next : ptr }.
 
@@ -128,9 +129,13 @@ Definition nofuel {A} : M A := fun _ => NoFuel.
 Notation "x <- m ;; k" := (bind m (fun x => k)) (at level 61, m at next level, right associativity).
 Notation "m ;;; k" := (bind m (fun _ => k)) (at level 61, right associativity).
 
-Record variant := mkV { v_destroy_asis : bool; v_close_nopurge : bool; v_root_keeps_q : bool; v_events_asis : bool }.
-Definition fixed : variant := mkV false false false false.
-Definition pinned : variant := mkV true true true true.
+(* [v_dh]: the DESTROY handlers of a window make calls (and then the is_destroying flag of fixes/C08-22 matters).  The
+   theorems are about [fixed], where they do not; [fixedh] is what the driver compares with the library.  On histories
+   without a DESTROY handler that makes calls the two coincide (tested by the driver on every such case). *)
+Record variant := mkV { v_destroy_asis : bool; v_close_nopurge : bool; v_root_keeps_q : bool; v_events_asis : bool; v_dh : bool }.
+Definition fixed : variant := mkV false false false false false.
+Definition pinned : variant := mkV true true true true false.
+Definition fixedh : variant := mkV false false false false true.
 
 (* ---- primitive accesses ------------------------------------------------------------ *)
 Definition getw (a : positive) : M wcell :=
@@ -178,17 +183,18 @@ Definition setr (a : positive) (r : rootx) : M unit :=
   if w_isroot c then (fun h => Ok tt (mkHeap (wins h) (reqs h) r (nextw h) (nextq h) (dlog h) (uninit_seen h) (tr h)))
   else fail OOB.
 
-Definition set_parent (c : wcell) (p : ptr) := mkW p (w_first c) (w_next c) (w_focus c) (w_ref c) (w_closed c) (w_isroot c) (w_visible c) (w_steal c) (w_focused c) (w_hs c) (w_fcn c).
-Definition set_first (c : wcell) (p : ptr) := mkW (w_parent c) p (w_next c) (w_focus c) (w_ref c) (w_closed c) (w_isroot c) (w_visible c) (w_steal c) (w_focused c) (w_hs c) (w_fcn c).
-Definition set_next (c : wcell) (p : ptr) := mkW (w_parent c) (w_first c) p (w_focus c) (w_ref c) (w_closed c) (w_isroot c) (w_visible c) (w_steal c) (w_focused c) (w_hs c) (w_fcn c).
-Definition set_focus (c : wcell) (p : ptr) := mkW (w_parent c) (w_first c) (w_next c) p (w_ref c) (w_closed c) (w_isroot c) (w_visible c) (w_steal c) (w_focused c) (w_hs c) (w_fcn c).
-Definition set_ref (c : wcell) (n : Z) := mkW (w_parent c) (w_first c) (w_next c) (w_focus c) n (w_closed c) (w_isroot c) (w_visible c) (w_steal c) (w_focused c) (w_hs c) (w_fcn c).
-Definition set_closed (c : wcell) (b : bool) := mkW (w_parent c) (w_first c) (w_next c) (w_focus c) (w_ref c) b (w_isroot c) (w_visible c) (w_steal c) (w_focused c) (w_hs c) (w_fcn c).
-Definition set_visible (c : wcell) (b : bool) := mkW (w_parent c) (w_first c) (w_next c) (w_focus c) (w_ref c) (w_closed c) (w_isroot c) b (w_steal c) (w_focused c) (w_hs c) (w_fcn c).
-Definition set_steal (c : wcell) (b : bool) := mkW (w_parent c) (w_first c) (w_next c) (w_focus c) (w_ref c) (w_closed c) (w_isroot c) (w_visible c) b (w_focused c) (w_hs c) (w_fcn c).
-Definition set_focused (c : wcell) (b : bool) := mkW (w_parent c) (w_first c) (w_next c) (w_focus c) (w_ref c) (w_closed c) (w_isroot c) (w_visible c) (w_steal c) b (w_hs c) (w_fcn c).
-Definition set_hs (c : wcell) (l : list handler) := mkW (w_parent c) (w_first c) (w_next c) (w_focus c) (w_ref c) (w_closed c) (w_isroot c) (w_visible c) (w_steal c) (w_focused c) l (w_fcn c).
-Definition set_fcn (c : wcell) (b : bool) := mkW (w_parent c) (w_first c) (w_next c) (w_focus c) (w_ref c) (w_closed c) (w_isroot c) (w_visible c) (w_steal c) (w_focused c) (w_hs c) b.
+Definition set_parent (c : wcell) (p : ptr) := mkW p (w_first c) (w_next c) (w_focus c) (w_ref c) (w_closed c) (w_isroot c) (w_visible c) (w_steal c) (w_focused c) (w_hs c) (w_fcn c) (w_dying c).
+Definition set_first (c : wcell) (p : ptr) := mkW (w_parent c) p (w_next c) (w_focus c) (w_ref c) (w_closed c) (w_isroot c) (w_visible c) (w_steal c) (w_focused c) (w_hs c) (w_fcn c) (w_dying c).
+Definition set_next (c : wcell) (p : ptr) := mkW (w_parent c) (w_first c) p (w_focus c) (w_ref c) (w_closed c) (w_isroot c) (w_visible c) (w_steal c) (w_focused c) (w_hs c) (w_fcn c) (w_dying c).
+Definition set_focus (c : wcell) (p : ptr) := mkW (w_parent c) (w_first c) (w_next c) p (w_ref c) (w_closed c) (w_isroot c) (w_visible c) (w_steal c) (w_focused c) (w_hs c) (w_fcn c) (w_dying c).
+Definition set_ref (c : wcell) (n : Z) := mkW (w_parent c) (w_first c) (w_next c) (w_focus c) n (w_closed c) (w_isroot c) (w_visible c) (w_steal c) (w_focused c) (w_hs c) (w_fcn c) (w_dying c).
+Definition set_closed (c : wcell) (b : bool) := mkW (w_parent c) (w_first c) (w_next c) (w_focus c) (w_ref c) b (w_isroot c) (w_visible c) (w_steal c) (w_focused c) (w_hs c) (w_fcn c) (w_dying c).
+Definition set_visible (c : wcell) (b : bool) := mkW (w_parent c) (w_first c) (w_next c) (w_focus c) (w_ref c) (w_closed c) (w_isroot c) b (w_steal c) (w_focused c) (w_hs c) (w_fcn c) (w_dying c).
+Definition set_steal (c : wcell) (b : bool) := mkW (w_parent c) (w_first c) (w_next c) (w_focus c) (w_ref c) (w_closed c) (w_isroot c) (w_visible c) b (w_focused c) (w_hs c) (w_fcn c) (w_dying c).
+Definition set_focused (c : wcell) (b : bool) := mkW (w_parent c) (w_first c) (w_next c) (w_focus c) (w_ref c) (w_closed c) (w_isroot c) (w_visible c) (w_steal c) b (w_hs c) (w_fcn c) (w_dying c).
+Definition set_hs (c : wcell) (l : list handler) := mkW (w_parent c) (w_first c) (w_next c) (w_focus c) (w_ref c) (w_closed c) (w_isroot c) (w_visible c) (w_steal c) (w_focused c) l (w_fcn c) (w_dying c).
+Definition set_fcn (c : wcell) (b : bool) := mkW (w_parent c) (w_first c) (w_next c) (w_focus c) (w_ref c) (w_closed c) (w_isroot c) (w_visible c) (w_steal c) (w_focused c) (w_hs c) b (w_dying c).
+Definition set_dying (c : wcell) (b : bool) := mkW (w_parent c) (w_first c) (w_next c) (w_focus c) (w_ref c) (w_closed c) (w_isroot c) (w_visible c) (w_steal c) (w_focused c) (w_hs c) (w_fcn c) b.
 
 (* one field write = read the cell, write it back *)
 Definition upd (a : positive) (f : wcell -> wcell) : M unit := c <- getw a ;; setw a (f c).
@@ -505,76 +511,6 @@ Definition root_cleanup (fuel : nat) (w : positive) : M unit :=
   cw <- getw w ;;
   if w_isroot cw then (if v_root_keeps_q V then ret tt else free_queue fuel w) else ret tt.
 
-(* tickit_window_unref / tickit_window_destroy and its loop over the children.
-   Not modelled: the [is_destroying] flag of fixes/C08-22 (set when destroy begins; unref does not destroy such a window
-   again, and destroy's loop does not unref such a child).  Between the beginning of a window's destruction and its
-   free() nothing takes or drops a reference on it unless one of its DESTROY handlers makes calls -- and those are
-   outside the model -- so the flag is never looked at while it is set. *)
-Fixpoint unref (fuel : nat) (w : positive) {struct fuel} : M unit :=
-  match fuel with
-  | O => nofuel
-  | S f =>
-    c <- getw w ;;
-    if w_ref c <? 1 then fail Abort
-    else
-      setw w (set_ref c (w_ref c - 1)) ;;;
-      if w_ref c - 1 =? 0 then destroy f w else ret tt
-  end
-with destroy (fuel : nat) (w : positive) {struct fuel} : M unit :=
-  match fuel with
-  | O => nofuel
-  | S f =>
-    log_destroy w ;;;                       (* tickit_bindings_unbind_and_destroy: the harness's DESTROY binding *)
-    if v_destroy_asis V then
-      cw <- getw w ;;
-      destroy_loop_asis f (w_first cw) ;;;
-      cw <- getw w ;;
-      (match w_parent cw with None => ret tt | Some _ => purge f w end) ;;;
-      cw <- getw w ;;
-      (if w_closed cw then ret tt else close f w) ;;;
-      root_cleanup f w ;;;
-      freew w
-    else
-      cw <- getw w ;;
-      (if w_closed cw then ret tt else close f w) ;;;
-      root_cleanup f w ;;;                  (* repaired code: the root's queue goes before the children *)
-      destroy_loop f w ;;;
-      freew w
-  end
-(* while(win->first_child) { child = win->first_child; win->first_child = child->next;
-     child->parent = NULL; child->next = NULL; tickit_window_unref(child); } *)
-with destroy_loop (fuel : nat) (w : positive) {struct fuel} : M unit :=
-  match fuel with
-  | O => nofuel
-  | S f =>
-    cw <- getw w ;;
-    match w_first cw with
-    | None => ret tt
-    | Some child =>
-      cc <- getw child ;;
-      setw w (set_first cw (w_next cc)) ;;;
-      upd child (fun c => set_parent c None) ;;;
-      upd child (fun c => set_next c None) ;;;
-      unref f child ;;;
-      destroy_loop f w
-    end
-  end
-(* pinned: for(child = win->first_child; child; ) { next = child->next; unref(child); child->parent = NULL; child = next; } *)
-with destroy_loop_asis (fuel : nat) (child : ptr) {struct fuel} : M unit :=
-  match fuel with
-  | O => nofuel
-  | S f =>
-    match child with
-    | None => ret tt
-    | Some a =>
-      ca <- getw a ;;
-      let next := w_next ca in
-      unref f a ;;;
-      upd a (fun c => set_parent c None) ;;;
-      destroy_loop_asis f next
-    end
-  end.
-
 (* tickit_window_new *)
 Fixpoint root_parent_walk (fuel : nat) (p : positive) : M positive :=
   match fuel with
@@ -589,7 +525,7 @@ Fixpoint root_parent_walk (fuel : nat) (p : positive) : M positive :=
 
 Definition window_new (fuel : nat) (p : positive) (hidden lowest rootparent steal : bool) : M positive :=
   p' <- (if rootparent then root_parent_walk fuel p else ret p) ;;
-  w <- allocw (mkW (Some p') None None None 1 false false true false false [] false) ;;
+  w <- allocw (mkW (Some p') None None None 1 false false true false false [] false false) ;;
   (if hidden then upd w (fun c => set_visible c false) else ret tt) ;;;
   (if steal then upd w (fun c => set_steal c true) else ret tt) ;;;
   do_change fuel (if lowest then ChInsertLast else ChInsertFirst) p' w ;;;
@@ -823,6 +759,33 @@ Definition handler_fires_mouse (h : handler) (t : mtype) : bool :=
   h_is HMouse h && Z.testbit (h_mask h) (mtype_bit t).
 
 (* ---- the API calls of a script, the event dispatch and the handlers it runs ----------- *)
+(* ---- DESTROY handlers ([v_dh]) ----
+   A DESTROY handler is handed its window: the calls it makes ON THAT WINDOW -- other than on its reference count, closing
+   it, creating windows below it, or binding -- are covered by the handler's contract, not by a reference of the client's.
+   The harness makes them but keeps them out of the trace the discipline judges; so does the model. *)
+Definition own_benign (w : positive) (o : op) : bool :=
+  match o with
+  | OShow x | OHide x | OFocus x | OExpose x | OGetRoot x | OGeom x | OMove x | OSteal x _ | ONotify x _ => Pos.eqb x w
+  | OTouch x None false => Pos.eqb x w
+  | _ => false
+  end.
+(* the entry that [m] wrote first is taken out of the trace again (what was written during the call stays) *)
+Fixpoint drop_at (n : nat) (l : list op) : list op :=
+  match n, l with
+  | O, _ :: t => t
+  | S n', x :: t => x :: drop_at n' t
+  | _, [] => []
+  end.
+Definition untrace (before : nat) (h : heap) : heap :=
+  mkHeap (wins h) (reqs h) (rx h) (nextw h) (nextq h) (dlog h) (uninit_seen h)
+         (drop_at (length (tr h) - before - 1) (tr h)).
+Definition quiet (m : M unit) : M unit :=
+  fun h => match m h with
+           | Ok u h' => Ok u (untrace (length (tr h)) h')
+           | Fault x hf => Fault x (untrace (length (tr h)) hf)
+           | NoFuel => NoFuel
+           end.
+
 Fixpoint run_op (fuel : nat) (o : op) {struct fuel} : M unit :=
   match fuel with
   | O => nofuel
@@ -1287,7 +1250,100 @@ with on_term_mouse (fuel : nat) (t : mtype) {struct fuel} : M unit :=
      | _ => ret tt
      end) ;;;
     (if v_events_asis V then ret tt else log_op (OFrameUnref root) ;;; unref f root)
+  end
+(* tickit_window_unref / tickit_window_destroy and its loop over the children *)
+with unref (fuel : nat) (w : positive) {struct fuel} : M unit :=
+  match fuel with
+  | O => nofuel
+  | S f =>
+    c <- getw w ;;
+    if w_ref c <? 1 then fail Abort
+    else
+      setw w (set_ref c (w_ref c - 1)) ;;;
+      if w_ref c - 1 =? 0 then (if v_dh V && w_dying c then ret tt else destroy f w) else ret tt      (* && !win->is_destroying *)
+  end
+with destroy (fuel : nat) (w : positive) {struct fuel} : M unit :=
+  match fuel with
+  | O => nofuel
+  | S f =>
+    (* win->is_destroying = true; tickit_bindings_unbind_and_destroy: the DESTROY handlers, last bound first -- the
+       harness's own DESTROY binding, which records the order, was bound first and runs last *)
+    (if v_dh V then upd w (fun c => set_dying c true) ;;; destroy_handlers f w else ret tt) ;;;
+    log_destroy w ;;;
+    if v_destroy_asis V then
+      cw <- getw w ;;
+      destroy_loop_asis f (w_first cw) ;;;
+      cw <- getw w ;;
+      (match w_parent cw with None => ret tt | Some _ => purge f w end) ;;;
+      cw <- getw w ;;
+      (if w_closed cw then ret tt else close f w) ;;;
+      root_cleanup f w ;;;
+      freew w
+    else
+      cw <- getw w ;;
+      (if w_closed cw then ret tt else close f w) ;;;
+      root_cleanup f w ;;;                  (* repaired code: the root's queue goes before the children *)
+      destroy_loop f w ;;;
+      freew w
+  end
+(* while(bindings->first) { detach the LAST binding; free it; if it is to be told: fn(owner, UNBIND|DESTROY, ...) } *)
+with destroy_handlers (fuel : nat) (w : positive) {struct fuel} : M unit :=
+  match fuel with
+  | O => nofuel
+  | S f =>
+    c <- getw w ;;
+    match rev (w_hs c) with
+    | [] => ret tt
+    | hd :: before =>
+      setw w (set_hs c (rev before)) ;;;
+      (if h_is HDestroy hd then run_dops f w (h_actions hd) else ret tt) ;;;
+      destroy_handlers f w
+    end
+  end
+(* the calls of a DESTROY handler of window [w] *)
+with run_dops (fuel : nat) (w : positive) (l : list op) {struct fuel} : M unit :=
+  match fuel with
+  | O => nofuel
+  | S f =>
+    match l with
+    | [] => ret tt
+    | o :: l' => (if own_benign w o then quiet (run_op f o) else run_op f o) ;;; run_dops f w l'
+    end
+  end
+(* while(win->first_child) { child = win->first_child; win->first_child = child->next;
+     child->parent = NULL; child->next = NULL; if(!child->is_destroying) tickit_window_unref(child); } *)
+with destroy_loop (fuel : nat) (w : positive) {struct fuel} : M unit :=
+  match fuel with
+  | O => nofuel
+  | S f =>
+    cw <- getw w ;;
+    match w_first cw with
+    | None => ret tt
+    | Some child =>
+      cc <- getw child ;;
+      setw w (set_first cw (w_next cc)) ;;;
+      upd child (fun c => set_parent c None) ;;;
+      upd child (fun c => set_next c None) ;;;
+      (if v_dh V && w_dying cc then ret tt else unref f child) ;;;
+      destroy_loop f w
+    end
+  end
+(* pinned: for(child = win->first_child; child; ) { next = child->next; unref(child); child->parent = NULL; child = next; } *)
+with destroy_loop_asis (fuel : nat) (child : ptr) {struct fuel} : M unit :=
+  match fuel with
+  | O => nofuel
+  | S f =>
+    match child with
+    | None => ret tt
+    | Some a =>
+      ca <- getw a ;;
+      let next := w_next ca in
+      unref f a ;;;
+      upd a (fun c => set_parent c None) ;;;
+      destroy_loop_asis f next
+    end
   end.
+
 
 (* ---- whole scripts ------------------------------------------------------------------- *)
 Inductive verdict := VOk (h : heap) | VFault (f : fault) (step : nat) (h : heap) | VNoFuel (step : nat).
@@ -1306,7 +1362,7 @@ Fixpoint run_script_from (fuel : nat) (l : list op) (step : nat) (h : heap) : ve
 End Variant.
 
 (* the state after tickit_window_new_root: the root window at address 1, exposed once *)
-Definition root_cell : wcell := mkW None None None None 1 false true true false false [] false.
+Definition root_cell : wcell := mkW None None None None 1 false true true false false [] false false.
 Definition heap0 (V : variant) : heap :=
   mkHeap (PM.add 1%positive root_cell (PM.empty wcell)) (PM.empty qcell)
          (mkR None true true false false
